@@ -322,6 +322,11 @@ var c12Grafts = map[string][]struct {
 		{jpath{"spec", "egress"}, `[{"to":[{"ipBlock":{"cidr":"10.0.0.0/8","except":["11.0.0.0/8"]}}],"ports":[{"endPort":90}]}]`},
 		{jpath{"spec", "ingress"}, `[{"ports":[{"port":"http","endPort":90},{"port":90,"endPort":80},{"protocol":"ICMP","port":80}]}]`},
 		{jpath{"spec", "egress"}, `[{"to":[{"ipBlock":{"cidr":"::/0"}},{"ipBlock":{}}]}]`},
+		// valid dual-stack policies: an IPv6 block alone, next to an IPv4 block, with an IPv6 except
+		{jpath{"spec", "egress"}, `[{"to":[{"ipBlock":{"cidr":"fd00:10:244::/56"}}]}]`},
+		{jpath{"spec", "ingress"}, `[{"from":[{"ipBlock":{"cidr":"2001:db8::/32"}},{"ipBlock":{"cidr":"10.0.0.0/8"}}],"ports":[{"port":80}]}]`},
+		{jpath{"spec", "egress"}, `[{"to":[{"ipBlock":{"cidr":"::/0","except":["fd00::/8"]}}]},{"to":[{"ipBlock":{"cidr":"0.0.0.0/0","except":["10.0.0.0/8"]}}]}]`},
+		{jpath{"spec", "ingress"}, `[{"from":[{"ipBlock":{"cidr":"::ffff:10.0.0.0/104"}}]}]`},
 		{jpath{"spec", "podSelector"}, `{"matchExpressions":[{"key":"a","operator":"In"},{"key":"","operator":"Bogus","values":["x"]}]}`},
 	},
 	"AdminNetworkPolicy": {
@@ -500,16 +505,45 @@ func genC12(t *rapid.T) *C12Case {
 			c.EvalPods = append(c.EvalPods, evalPodNames(&w.Workloads[i])[0])
 		}
 	}
+	if rapid.IntRange(0, 7).Draw(t, "dualstack") == 0 {
+		// a dual-stack cluster: the first ipBlock of every NetworkPolicy of the context names an IPv6 network (valid input)
+		v6 := rapid.SampledFrom([]string{"fd00:10:244::/56", "2001:db8::/32", "::/0", "fe80::/10"}).Draw(t, "dualstackcidr")
+		for _, d := range docs {
+			if d["kind"] != "NetworkPolicy" {
+				continue
+			}
+			spec, _ := d["spec"].(map[string]interface{})
+			done := false
+			for _, dirKey := range [][2]string{{"ingress", "from"}, {"egress", "to"}} {
+				rules, _ := spec[dirKey[0]].([]interface{})
+				for _, r := range rules {
+					rm, _ := r.(map[string]interface{})
+					peers, _ := rm[dirKey[1]].([]interface{})
+					for _, pe := range peers {
+						pm, _ := pe.(map[string]interface{})
+						if ib, ok := pm["ipBlock"].(map[string]interface{}); ok && !done {
+							ib["cidr"] = v6
+							delete(ib, "except")
+							done = true
+						}
+					}
+				}
+			}
+		}
+		c.Desc = append(c.Desc, "context: dual-stack ipBlocks "+v6)
+	}
 	nctx := len(docs)
 	nm := rapid.IntRange(1, 3).Draw(t, "nmut")
 	for i := 0; i < nm; i++ {
 		var src map[string]interface{}
+		srcIdx := -1
 		l := fmt.Sprintf("m%d", i)
 		if len(c12Seeds.kinds) > 0 && rapid.Bool().Draw(t, l+"fromrepo") {
 			k := c12Seeds.kinds[rapid.IntRange(0, len(c12Seeds.kinds)-1).Draw(t, l+"kind")]
 			src = c12Seeds.byKind[k][rapid.IntRange(0, len(c12Seeds.byKind[k])-1).Draw(t, l+"doc")]
 		} else {
-			src = docs[rapid.IntRange(0, nctx-1).Draw(t, l+"wdoc")]
+			srcIdx = rapid.IntRange(0, nctx-1).Draw(t, l+"wdoc")
+			src = docs[srcIdx]
 		}
 		md, desc := mutateDoc(t, src, docs[:nctx], l)
 		if rapid.IntRange(0, 3).Draw(t, l+"twice") == 0 {
@@ -517,9 +551,11 @@ func genC12(t *rapid.T) *C12Case {
 			md, d2 = mutateDoc(t, md, docs[:nctx], l+"b")
 			desc += " + " + d2
 		}
-		if rapid.IntRange(0, 2).Draw(t, l+"replace") == 0 && len(docs) > 0 {
-			// the mutated document replaces a valid one of the context half of the time it comes from the context
-			docs = append(docs, md)
+		if srcIdx >= 0 && rapid.IntRange(0, 2).Draw(t, l+"replace") > 0 {
+			// two thirds of the documents mutated from the context REPLACE their original (a copy next to the original
+			// of a policy is a name conflict: the run ends before the mutated copy is ever evaluated)
+			docs[srcIdx] = md
+			desc += " (replaces the original)"
 		} else {
 			docs = append(docs, md)
 		}
